@@ -165,6 +165,10 @@ func (l *DList[T]) Delete(node *DoubleNode[T]) error {
 	// Check if the node to be deleted is the head node.
 	if head.Value == node.Value {
 		l.DoubleNode = *head.next
+		l.prev = nil
+		if l.next != nil {
+			l.next.prev = head
+		}
 		return nil
 	}
 
